@@ -97,6 +97,10 @@ func parseDocker(raw string, kind Kind, first bool) (*URL, error) {
 	}
 	if container == "" {
 		return nil, errors.New("empty container name")
+	} else if beginsWithDash(container) {
+		// A container name that begins with a dash would be interpreted as an
+		// option by the docker command.
+		return nil, errors.New("container name begins with a dash")
 	} else if path == "" {
 		if kind == Kind_Synchronization {
 			return nil, errors.New("missing path")
